@@ -91,7 +91,7 @@ def want_strict(agg, name, kw, exp):
     agg.cls((name, r[0]))
     if not ok:
         agg.violation({"fn": name, "cmp": "strict"},
-                      {"fn": name, "args": kw, "cmp": "strict"},
+                      {"fn": name, "args": kw, "cmp": "strict", "_exp": exp},
                       exp, core.show_raw(r), size=len(repr(kw)))
 
 
@@ -104,7 +104,7 @@ def want_equal(agg, name, kw, exp):
     agg.cls((name, r[0]))
     if not ok:
         agg.violation({"fn": name, "cmp": "equal"},
-                      {"fn": name, "args": kw, "cmp": "equal"},
+                      {"fn": name, "args": kw, "cmp": "equal", "_exp": exp},
                       exp, core.show_raw(r), size=len(repr(kw)))
 
 
@@ -395,6 +395,18 @@ def replay(case, verbose=False):
     r = run(fn, **kw)
     if verbose:
         print(FORMS[fn], kw, "->", core.show_raw(r))
+    # direct replay: the recorded expectation against a fresh run
+    if "_exp" in case or case.get("cmp") == "error":
+        a = core.Agg()
+        if case["cmp"] == "strict":
+            want_strict(a, fn, kw, _fix(case["_exp"]))
+        elif case["cmp"] == "equal":
+            want_equal(a, fn, kw, _fix(case["_exp"]))
+        else:
+            want_error(a, fn, kw)
+        if verbose:
+            print("expected:", case.get("_exp", "language error"))
+        return bool(a.viol)
     # recompute by re-running the generating check on the arguments
     if fn in ("abs", "sign", "gcd", "lcm", "pow"):
         a = explore_ints({"ints": [kw["a"]], "ranges": []})
